@@ -152,8 +152,25 @@ def fired(r):
     return int(r.fut.done()) if r.fut is not None else 0
 
 
+class RecLoop:
+    """Stands for 'the IOLoop this Subprocess was created on': everything goes on to the real loop, but the calls are
+    counted - an exit must be reported through the Subprocess's own loop, not through whichever loop happens to run
+    the SIGCHLD handler (several IOLoops in several threads is a documented set-up)."""
+
+    def __init__(self, real):
+        self._real = real
+        self.calls = 0
+
+    def add_callback(self, cb, *a, **kw):
+        self.calls += 1
+        return self._real.add_callback(cb, *a, **kw)
+
+    def __getattr__(self, name):
+        return getattr(self._real, name)
+
+
 class Child:
-    __slots__ = ("i", "skey", "status", "code", "p", "pid", "exited", "t_exit", "regs")
+    __slots__ = ("i", "skey", "status", "code", "p", "pid", "exited", "t_exit", "regs", "rec")
 
     def __init__(self, i, skey, status=None, code=None):
         self.i, self.skey = i, skey
@@ -236,6 +253,8 @@ def run_case(proc, case, chooser, trace=None):
 
             def spawn(c):
                 c.p = Sub(["child%d" % c.i])
+                c.rec = RecLoop(c.p.io_loop)
+                c.p.io_loop = c.rec
                 c.pid = c.p.pid
                 say("spawn child %d -> pid %d" % (c.i, c.pid))
 
@@ -296,6 +315,10 @@ def run_case(proc, case, chooser, trace=None):
                                     "SIGCHLD was delivered after exit and registration",
                                     "the callback did not run" if r.kind == "cb" else
                                     "the future is pending"))
+                for c in children:
+                    if c.p is not None and any(fired(r) for r in c.regs) and c.rec.calls == 0:
+                        flag("exit-reported-through-another-loop",
+                             "child %d was reported, but not by way of the IOLoop the Subprocess belongs to" % c.i)
                 if kernel.blocked:
                     flag("blocking-waitpid", "waitpid without WNOHANG on a running child")
                 for ctx in w.loop.exc_log:
@@ -481,6 +504,58 @@ def run_case(proc, case, chooser, trace=None):
 
 
 # --------------------------------------------------------------------------
+def run_loop_switch(proc, reinit, rkind, skey, exit_first):
+    """SIGCHLD handling was set up on a loop that has since been closed (asyncio.run() returned); on the new loop the
+    application calls Subprocess.uninitialize() to move the handler (then initialize(), or leaves that to the first
+    registration).  A child that exits must be reported on the new loop."""
+    kernel = Kernel("fresh")
+    Sub = proc.Subprocess
+    saved = (proc.os, proc.subprocess)
+    Sub._waiting.clear()
+    Sub._initialized = False
+    proc.os = OsShim(kernel)
+    proc.subprocess = SubprocessShim(kernel)
+    bad = []
+    try:
+        with World() as wa:
+            Sub.initialize()
+            if SIGCHLD not in wa.loop.signal_handlers:
+                bad.append(("loop-switch:no-handler-on-first-loop", "initialize() installed no SIGCHLD handler"))
+        with World() as wb:
+            Sub.uninitialize()
+            if reinit:
+                Sub.initialize()
+            p = Sub(["child"])
+            calls = []
+            fut = None
+            if exit_first:
+                kernel.exit(p.pid, STATUS[skey])
+            if rkind == "cb":
+                p.set_exit_callback(calls.append)
+            else:
+                fut = p.wait_for_exit(raise_error=False)
+            wb.pump()
+            if SIGCHLD not in wb.loop.signal_handlers:
+                bad.append(("loop-switch:no-handler-on-new-loop", "after uninitialize()%s and a registration on the new "
+                            "loop no SIGCHLD handler is installed there" % (" + initialize()" if reinit else "")))
+            if not exit_first:
+                kernel.exit(p.pid, STATUS[skey])
+            if SIGCHLD in wb.loop.signal_handlers:
+                cb, args = wb.loop.signal_handlers[SIGCHLD]
+                wb.loop.call_soon(cb, *args)
+            wb.pump()
+            got = calls if rkind == "cb" else ([fut.result()] if fut.done() else [])
+            if got != [CODE[skey]]:
+                bad.append(("loop-switch:never-reported" if not got else "loop-switch:wrong-report",
+                            "child exited with %s after the handler was moved to a new loop: reports %r" % (skey, got)))
+            Sub.uninitialize()
+    finally:
+        proc.os, proc.subprocess = saved
+        Sub._waiting.clear()
+        Sub._initialized = False
+    return bad
+
+
 def rot(seq, k, n):
     return tuple(seq[(k + j) % len(seq)] for j in range(n))
 
@@ -560,7 +635,7 @@ class C42(Check):
 
     def partitions(self, tier):
         from tornado import process as proc
-        parts = [("decode", 0), ("decode", 1)]
+        parts = [("decode", 0), ("decode", 1), ("loopswitch", 0)]
         for ci, case in enumerate(self.cases(tier)):
             if case.get("split"):
                 def run(ch, case=case):
@@ -583,6 +658,19 @@ class C42(Check):
         from tornado import process as proc
         if part[0] == "decode":
             return self._decode(proc, part[1], st)
+        if part[0] == "loopswitch":
+            for reinit in (False, True):
+                for rkind in ("cb", "wn"):
+                    for skey in SKEYS[:3]:
+                        for exit_first in (False, True):
+                            bad = run_loop_switch(proc, reinit, rkind, skey, exit_first)
+                            st.ev()
+                            st.transitions += 4
+                            st.nontriv(("loopswitch", reinit, rkind, skey, exit_first))
+                            st.outcome(("loopswitch", bool(bad)))
+                            for sig, msg in bad:
+                                st.violation(sig, msg, {"loopswitch": [reinit, rkind, skey, exit_first]})
+            return
         ci, prefix = part
         case = self.cases(tier)[ci]
         seen = set()
@@ -656,6 +744,8 @@ class C42(Check):
 
     def replay(self, case):
         from tornado import process as proc
+        if "loopswitch" in case:
+            return repr(run_loop_switch(proc, *case["loopswitch"]))
         trace = []
         c = dict(case["case"])
         c["children"] = [tuple(x) for x in c["children"]]
